@@ -102,7 +102,7 @@ def tree_hash(crate, harness=None, deps=()):
 
 
 CHECK_RE = re.compile(
-    r"^Check (\d+): ([^\n]+)\n\t - Status: (\w+)\n\t - Description: \"(.*?)\"\n\t - Location: (.*?)$",
+    r"^Check (\d+): ([^\n]+)\n\t - Status: (\w+)\n\t - Description: \"(.*?)\"\n\t - Location: ([^\n]*)$",
     re.M | re.S,
 )
 
@@ -112,6 +112,8 @@ def parse_log(text):
     checks = []
     for m in CHECK_RE.finditer(text):
         num, name, status, desc, loc = m.groups()
+        # assertion messages given as string literals are printed with their own quotes
+        desc = desc.strip().strip('"').strip()
         checks.append(dict(name=name, status=status, description=desc, location=loc.strip()))
     res = dict(
         n_checks=len([c for c in checks if ".cover." not in c["name"]]),
@@ -174,7 +176,7 @@ def run_kani(crate, harness, lane, timeout_s, mem_gb=24, playback=False, use_cac
     os.makedirs(CACHE_DIR, exist_ok=True)
     os.makedirs(LOG_DIR, exist_ok=True)
     key = hashlib.sha256(json.dumps(
-        [crate, harness, tree_hash(crate, harness, deps), playback, "kani-0.68.0", "flags-v2"]).encode()).hexdigest()
+        [crate, harness, tree_hash(crate, harness, deps), playback, "kani-0.68.0", "flags-v2", "parser-v2"]).encode()).hexdigest()
     cache_file = os.path.join(CACHE_DIR, key + ".json")
     if use_cache and os.path.exists(cache_file) and os.environ.get("VERIF_NO_CACHE") != "1":
         try:
@@ -307,3 +309,25 @@ def native_replay(harness, values, profiles=("dev", "release"), timeout_s=120,
                         panic=dict(location=pm.group(1), message=pm.group(2)) if pm else None,
                         output=text[-1500:]))
     return out
+
+
+def native_witness_search(crate, harness, seed, iterations, expect, timeout_s=900):
+    """Run the harness natively on boundary-biased random inputs until a failure whose message
+    contains `expect` shows up. Returns dict(values=[[bytes]] or None, ...)."""
+    if crate == "dimacs":
+        return dict(values=None, note="no witness search for the dimacs crate")
+    binary, build_log = build_replay("release", crate)
+    if binary is None:
+        return dict(values=None, note="replay build failed", log=build_log)
+    try:
+        p = subprocess.run([binary, "search", crate, harness, str(seed), str(iterations), expect],
+                           stdout=subprocess.PIPE, stderr=subprocess.STDOUT, text=True,
+                           timeout=timeout_s)
+        text = p.stdout
+    except subprocess.TimeoutExpired:
+        return dict(values=None, note="timeout")
+    m = re.search(r"SEARCH-FOUND iterations=(\d+) message=(.*) values=(\S*)", text)
+    if not m:
+        return dict(values=None, note=text[-300:])
+    values = [list(bytes.fromhex(hx)) for hx in m.group(3).split(",") if hx]
+    return dict(values=values, iterations=int(m.group(1)), message=m.group(2))
